@@ -770,6 +770,9 @@ class Fxp():
         
         # scaling conversion
         self.scaled = False
+        if self.scale is not None and self.bias is not None and raw:
+            # a raw value is not transformed, but the object remains a scaled one
+            self.scaled = bool(self.bias != 0 or self.scale != 1)
         if self.scale is not None and self.bias is not None and not raw:
             if self.bias != 0:
                 val = val - self.bias
